@@ -347,7 +347,7 @@ fn scale(w: &mut Worker) {
             );
         }
     }
-    let counts: Vec<usize> = with_thresholds_usize(w.tier.pick(vec![10, 300], vec![10, 300, 3000, 30000]), w.tier.pick(1024, 16384));
+    let counts: Vec<usize> = with_thresholds_usize(w.tier.pick(vec![10, 300, 6000], vec![10, 300, 3000, 6000, 30000, 70000]), w.tier.pick(1024, 16384));
     for &n in &counts {
         // a flat array of n numbers and an object of n members
         let arr = format!("[{}]", (1..=n).map(|i| i.to_string()).collect::<Vec<_>>().join(","));
@@ -571,6 +571,26 @@ pub fn worker(w: &mut Worker) {
             body(json!({"k": n, "a.b": [n]}));
         }
     }
+    // chains of containers of every depth up to 120, objects and arrays in turn, the keys on the way down
+    // taken in rotation from a pool of keys that read like path syntax (JSON pointer escapes, slashes,
+    // dots, indexes, the empty key); every container on the way has a sibling leaf
+    {
+        let keys = ["k", "~", "~0", "~1", "/", "a/b", "~01", "~10", "", "0", "1", "-", "a.b", "a b", "$", "#", "é", "[0]", "..", "\\"];
+        let max_depth = 120usize;
+        for rot in 0..keys.len() {
+            for depth in (1..=max_depth).filter(|d| tier == Tier::Thorough || *d <= 8 || d % 8 <= 2 || (28..=40).contains(d)) {
+                if !w.take() {
+                    continue;
+                }
+                let mut d: Value = json!("leaf");
+                for level in (0..depth).rev() {
+                    let key = keys[(level + rot) % keys.len()];
+                    d = if level % 3 == 2 { json!([d, "s"]) } else { json!({key: d, "zz": "s"}) };
+                }
+                run!(json!({"kind": "json", "doc": d.to_string()}), true, ("json-chain", depth.min(40), rot), json_roundtrip(&mut s, &d));
+            }
+        }
+    }
     // properties
     let vl = tier.pick(2usize, 4usize);
     let keys: Vec<String> = Strings::new(&PSIG[..], 1, 2).map(|v| v.concat()).collect();
@@ -639,7 +659,7 @@ pub fn crash_sig(_case: &Value, kind: &str) -> String {
     kind.to_string()
 }
 
-pub const RULE: &str = "texts: every string up to the length bound over {a e-acute emoji NUL LF SP = U+FEFF} through string_to_bytes/bytes_to_string and base64_encode/base64_decode (bytes compared in the handle table as well); integers: every n in 0..=bound plus 2^k-1,2^k,2^k+1 for k<=64 through hex_encode/hex_decode; JSON: every document of the stated depth with width<=2 over leaves {\"a\",\"a.b\",\"\",1,1.5,true,null} plus 14 number leaves at the edges of the i64/u64/f64 ranges (numbers must keep their exact decimal value) and keys {k,a.b,'a b',x[0]} (depth 3 over a covering subset of depth-2 shapes) through json_parse --collection / json_encode --collection compared (as JSON values) with the documented normalisation, then release -r must free every handle; properties: every 1-entry map with key length 1..2 and value length 0..bound over {a SP = : # ! \\\\ e-acute LF}, every 2-entry map over length-1 keys/values plus a few non-BMP entries, through map_to_properties/map_load_properties. Non-trivial: non-ASCII or NUL text, n>255, container documents, every properties case. states = distinct (kind, size class) outcomes; transitions = round trips executed. Scale cases: texts of 4095/65537 (thorough 1000003) bytes, plain and with a two-byte character across the middle, through the bytes and base64 round trips (and the length of the base64 text); JSON arrays and objects of 10/300 (thorough 30000) members and arrays nested 10/60/101/127 deep (127 is the deepest document the parser accepts) through json_parse --collection / json_encode --collection; maps of as many entries through the properties text. Documents in sequence: 2..6 documents parsed into one variable, their handles kept in an array / a map / other variables, then encoded from there. The wide one-character alphabet and every control character as a text, a JSON string / key / item, a properties key and value. Wrong kind in between: 12 commands of another kind applied to the handle between the two halves of 6 round trips (bytes, base64, JSON array, JSON object, properties, set): they report an error and the second half gives back the original";
+pub const RULE: &str = "texts: every string up to the length bound over {a e-acute emoji NUL LF SP = U+FEFF} through string_to_bytes/bytes_to_string and base64_encode/base64_decode (bytes compared in the handle table as well); integers: every n in 0..=bound plus 2^k-1,2^k,2^k+1 for k<=64 through hex_encode/hex_decode; JSON: every document of the stated depth with width<=2 over leaves {\"a\",\"a.b\",\"\",1,1.5,true,null} plus 14 number leaves at the edges of the i64/u64/f64 ranges (numbers must keep their exact decimal value) and keys {k,a.b,'a b',x[0]} (depth 3 over a covering subset of depth-2 shapes) through json_parse --collection / json_encode --collection compared (as JSON values) with the documented normalisation, then release -r must free every handle; properties: every 1-entry map with key length 1..2 and value length 0..bound over {a SP = : # ! \\\\ e-acute LF}, every 2-entry map over length-1 keys/values plus a few non-BMP entries, through map_to_properties/map_load_properties. Non-trivial: non-ASCII or NUL text, n>255, container documents, every properties case. states = distinct (kind, size class) outcomes; transitions = round trips executed. Scale cases: texts of 4095/65537 (thorough 1000003) bytes, plain and with a two-byte character across the middle, through the bytes and base64 round trips (and the length of the base64 text); JSON arrays and objects of 10/300 (thorough 30000) members and arrays nested 10/60/101/127 deep (127 is the deepest document the parser accepts) through json_parse --collection / json_encode --collection; maps of as many entries through the properties text. Documents in sequence: 2..6 documents parsed into one variable, their handles kept in an array / a map / other variables, then encoded from there. The wide one-character alphabet and every control character as a text, a JSON string / key / item, a properties key and value. Wrong kind in between: 12 commands of another kind applied to the handle between the two halves of 6 round trips (bytes, base64, JSON array, JSON object, properties, set): they report an error and the second half gives back the original Container chains: every depth up to 120 (quick: 1..8, the neighbourhoods of the multiples of 8 and 28..40), objects and arrays in turn, the keys on the way down in rotation (20 rotations) from a pool of 20 keys that read like path syntax (~ ~0 ~1 / a/b ~01 ~10, the empty key, 0 1 - a.b [0] .. $ # and a backslash), every container with a sibling leaf.";
 pub const ASSUMPTIONS: &[&str] = &["values are handed to the commands as already-bound arguments (no '$' or '%' in the alphabets)", "JSON equality is serde_json value equality (object key order is not significant)"];
 pub const EXHAUSTIVE: bool = true;
 pub const WALL_CAP_S: (u64, u64) = (50, 1500);
